@@ -156,6 +156,15 @@ func runC14Child(e *emitter, tier string, seed uint64) {
 	for _, s := range c14Shared {
 		handlerFor[s.name] = templ.Handler(s.c)
 	}
+	// one CSS middleware serves all requests; a page uses a class that is NOT registered with it and a script: every
+	// response is the response a middleware of its own would give
+	mkMW := func() http.Handler {
+		return templ.NewCSSMiddleware(templ.Handler(tmpl.CSSComponentSink(tmpl.DynCSS("color", "red"))),
+			templ.ComponentCSSClass{ID: "reg1", Class: templ.SafeCSS(".reg1{margin:0;}")})
+	}
+	mwRef := httptest.NewRecorder()
+	mkMW().ServeHTTP(mwRef, httptest.NewRequest("GET", "/page", nil))
+	sharedMW := mkMW()
 	var wg sync.WaitGroup
 	for g := 0; g < G; g++ {
 		wg.Add(1)
@@ -165,6 +174,14 @@ func runC14Child(e *emitter, tier string, seed uint64) {
 			for i := 0; i < M; i++ {
 				s := c14Shared[r.intn(len(c14Shared))]
 				ref := refs[s.name]
+				if r.chance(1, 8) {
+					rec := httptest.NewRecorder()
+					sharedMW.ServeHTTP(rec, httptest.NewRequest("GET", "/page", nil))
+					if rec.Code != mwRef.Code || rec.Body.String() != mwRef.Body.String() {
+						report(fmt.Sprintf("css middleware: a response through the shared middleware differs from a middleware of its own (%d vs %d bytes)", rec.Body.Len(), mwRef.Body.Len()))
+					}
+					continue
+				}
 				switch r.intn(7) {
 				case 5, 6: // the caller's own large bufio.Writer, used for two documents and flushed afterwards
 					var sink bytes.Buffer
